@@ -6,7 +6,7 @@ import argparse, json, os, re, shutil, glob
 
 ap = argparse.ArgumentParser()
 ap.add_argument("wt"); ap.add_argument("name"); ap.add_argument("pid")
-ap.add_argument("--breaks", default=""); ap.add_argument("--needs", default="")
+ap.add_argument("--breaks", default=""); ap.add_argument("--needs", default=""); ap.add_argument("--note", default="")
 a = ap.parse_args()
 src = os.path.join(a.wt, "_seed", a.name)
 dst = os.path.join("/verif/seeded", f"{a.pid}-{a.name}")
@@ -46,6 +46,7 @@ meta = {
         "checks": "VERIF_REPO=<patched worktree> /verif/check Cxx (same code path as against /repo)",
     },
     "detected_by": det,
+    "note": a.note,
 }
 json.dump(meta, open(os.path.join(dst, "meta.json"), "w"), indent=1)
 print(dst, {k: v["result"] for k, v in det.items()}, suite[0] if suite else "suite pending")
